@@ -1228,7 +1228,7 @@ struct Gen {
 fn generator(pid: &str) -> Gen {
     let c10 = pid == "C10";
     let mut decl = vec![];
-    for n in ["ro", "theta", "acc", "loopn"] {
+    for n in ["ro", "theta", "acc", "loopn", "rf"] {
         for t in ["BIT", "REAL[2]", "INTEGER[3]"] {
             decl.push(format!("DECLARE {n} {t}"));
         }
@@ -1237,9 +1237,11 @@ fn generator(pid: &str) -> Gen {
     let mut frame = vec![];
     if !c10 {
         // DEFFRAME is outside C10's alphabet (DESIGN §6 C10)
-        for q in ["0", "1", "2", "0 1", "1 2"] {
+        for q in ["0", "1", "0 1", "1 0", "1 2"] {
             for n in ["rf", "ro"] {
-                for a in ["HARDWARE-OBJECT: \"h1\"", "HARDWARE-OBJECT: \"h2\"\n    INITIAL-FREQUENCY: 1e6"] {
+                // one attribute; the same plus a second one (so that a redefinition with a strict subset of the
+                // attributes occurs); other values
+                for a in ["HARDWARE-OBJECT: \"h1\"", "HARDWARE-OBJECT: \"h1\"\n    INITIAL-FREQUENCY: 1e6", "HARDWARE-OBJECT: \"h2\"\n    INITIAL-FREQUENCY: 1e6"] {
                     frame.push(format!("DEFFRAME {q} \"{n}\":\n    {a}"));
                 }
             }
@@ -1281,7 +1283,7 @@ fn generator(pid: &str) -> Gen {
     gate.push("DEFGATE SQ a AS SEQUENCE:\n    Z a".into());
     gate.push("DEFGATE SR(%t) a b AS SEQUENCE:\n    RX(%t) a\n    SQ b".into());
     let mut circ = vec![];
-    for n in ["BELL", "C2"] {
+    for n in ["BELL", "G1"] {
         circ.push(format!("DEFCIRCUIT {n} a b:\n    H a\n    CNOT a b"));
         circ.push(format!("DEFCIRCUIT {n} a b:\n    CNOT b a"));
     }
@@ -1296,6 +1298,9 @@ fn generator(pid: &str) -> Gen {
         "MEASURE 0 ro[0]", "MEASURE 1 ro[0]", "MEASURE 4", "RESET", "RESET 3", "DELAY 0 1.0", "DELAY 2 3 0.5", "FENCE 1 2",
         "FENCE", "NOP", "WAIT", "HALT", "MOVE acc[0] 1", "ADD acc[0] 2", "LABEL @a", "JUMP @a", "JUMP-WHEN @a ro[0]",
         "PRAGMA note", "PRAGMA other 1 \"data\"", "CALL foo acc[0]", "G1 0", "BELL 0 1",
+        // near-misses of the EXTERN routing: they belong to the body whatever their first argument is
+        "PRAGMA extern foo \"INTEGER (x : INTEGER)\"", "PRAGMA Extern bar \"(x : mut REAL[3])\"", "PRAGMA EXTERNS foo \"INTEGER (x : INTEGER)\"",
+        "PRAGMA EXTERN_ baz", "PRAGMA extern",
     ]
     .into_iter()
     .map(String::from)
